@@ -4,12 +4,14 @@ pub mod c01;
 pub mod c02;
 pub mod c03;
 pub mod c04;
+pub mod c07;
 pub mod c09;
 pub mod c10;
 pub mod c12;
 pub mod c16;
 pub mod c17;
 pub mod c18;
+pub mod c20;
 pub mod common;
 pub mod smoke;
 pub mod txw;
@@ -21,6 +23,7 @@ pub fn run(what: &str, tier: &str, _rest: &[String]) -> i32 {
         "C02" => c02::run(tier),
         "C03" => c03::run(tier),
         "C04" => c04::run(tier),
+        "C07" => c07::run(tier),
         "C09" => c09::run(tier),
         "C10" => c10::run(tier),
         "C12" => c12::run(tier),
@@ -28,6 +31,7 @@ pub fn run(what: &str, tier: &str, _rest: &[String]) -> i32 {
         "C17" => c17::run(tier),
         "C18" => c18::run(tier),
         "C18diag" => c18::diag(),
+        "C20" => c20::run(tier),
         _ => {
             eprintln!("unknown check {} ({})", what, tier);
             64
